@@ -3,6 +3,7 @@ Facts about concrete configurations (`Model/Instance.lean`): the abstract instan
 configuration satisfies the hypotheses of the search theorems.
 -/
 import Compass.Proofs.Num
+import Compass.Proofs.Cost
 import Compass.Proofs.SearchTree
 import Compass.Model.Instance
 
@@ -11,20 +12,7 @@ namespace Compass
 section
 variable {α : Type} [Field α] [LinearOrder α] [IsStrictOrderedRing α] [Lit α] [LawfulLit α]
 
-/-- the cost floor of the source is a positive number -/
-theorem minCost_pos : (0 : α) < (minCost : α) := by
-  have h2 : minCostLit.2 ≠ 0 := by decide
-  have h1 : minCostLit.1 ≠ 0 := by decide
-  simp only [minCost, LawfulLit.lit_eq]
-  have : (0 : α) < (minCostLit.1 : α) := by exact_mod_cast Nat.pos_of_ne_zero h1
-  have : (0 : α) < (minCostLit.2 : α) := by exact_mod_cast Nat.pos_of_ne_zero h2
-  positivity
-
-theorem enforceStrictlyPositive_pos (c : α) : 0 < enforceStrictlyPositive c := by
-  unfold enforceStrictlyPositive
-  split
-  · exact minCost_pos
-  · rename_i h; simp only [zero_eq, not_le] at h; exact h
+-- `minCost_pos` and `enforceStrictlyPositive_pos` live in `Proofs/Cost.lean`
 
 theorem enforceStrictlyPositive_ge (c : α) : (minCost : α) ≤ enforceStrictlyPositive c ∨ enforceStrictlyPositive c = c := by
   unfold enforceStrictlyPositive
